@@ -148,7 +148,7 @@ def c03(ctx):
     rule = ("exhaustive product of checker/builder configurations (no key; key with/without alg attr; explicit alg; callback leaving alg default / "
             "setting key / alg / both) x header alg variants (none/None/NONE/known/unknown/missing/non-string) x signature (absent, garbage, real) "
             "x provider, plus token shapes with 2-5+ segments and third segment in {empty, 1-2 chars, valid HS/ES signature, junk, '='}. "
-            "Also: callback installed in one or two steps (ctx-only setcb); signatures of exactly 256 / 65536 characters; escaped-NUL alg variants; every second builder cell carries an application-set alg header member (the emitted alg is still the resolved one). Non-trivial = cell with a key, or empty third segment, or an alg-none variant; cells distinct by construction, shapes by token hash.")
+            "Also: callback installed in one or two steps (ctx-only setcb); signatures of exactly 256 / 65536 characters; escaped-NUL alg variants; every second builder cell carries an application-set alg header member (the emitted alg is still the resolved one); shapes with '='-padded payload segments and signatures over everything before the LAST dot. Non-trivial = cell with a key, or empty third segment, or an alg-none variant; cells distinct by construction, shapes by token hash.")
     cov, mn = P.generic_harness_check(ctx, "C02_matrix", rule, MATRIX_ASSUME, extra_link="", extra_args=["--prop", "C03"], exhaustive=True,
                                       min_nontrivial={"quick": 5000, "thorough": 5000})
     return P.finish(ctx, "exploration", cov, MATRIX_ASSUME, mn)
@@ -167,7 +167,7 @@ def c01(ctx):
             "another key / another alg, ECDSA specials (r,s in {0,n}, (r,n-s), re-padded or stripped r||s), EdDSA S+L, RSA zero byte, header alg swap with "
             "kept / empty-key-HMAC / public-PEM-HMAC / real-key signatures, payload change, part swaps, header re-encoding, std alphabet). "
             "Oracle: verify==0 => reference verifier accepts (lenient base64, header alg's algorithm, exact signing input). "
-            "Deterministic parts: (a) keys nobody can sign for - RSA public JWKs with made-up moduli of 2048..65536 bits, items flagged 'Invalid alg type' after loading, HS* tokens keyed with nothing / public PEM / raw public numbers against every asymmetric key - every token must be rejected via setkey and via callback; (b) for every EC key, signatures with short r, short s, both: all nine re-encodings x provider x route; (c) same address, other key: with a recycling allocator (jwt_set_alloc) key A is loaded, used and freed, key B lands at its address and must reject A's tokens, accept its own and sign as B; (d) every asymmetric key's own kind of signature under a header that names an algorithm of another family (ES256-style under EdDSA/RS*/PS*, EdDSA under ES*, ...), key without alg attribute. Signature extensions include 255/256/257/512..131072 characters; constant-fill signatures 0x00/0xff/0x80/0x7f. Non-trivial = the case reached signature evaluation (accepted, or rejected by the crypto layer); distinct by hash of (token, provider, key, alg, config).")
+            "Deterministic parts: (a) keys nobody can sign for - RSA public JWKs with made-up moduli of 2048..65536 bits, items flagged 'Invalid alg type' after loading, HS* tokens keyed with nothing / public PEM / raw public numbers against every asymmetric key - every token must be rejected via setkey and via callback; (b) for every EC key, signatures with short r, short s, both: all nine re-encodings x provider x route; (c) same address, other key: with a recycling allocator (jwt_set_alloc) key A is loaded, used and freed, key B lands at its address and must reject A's tokens, accept its own and sign as B; (d) every asymmetric key's own kind of signature under a header that names an algorithm of another family (ES256-style under EdDSA/RS*/PS*, EdDSA under ES*, ...), key without alg attribute; (e) key history: K0 by setkey, a callback hands out KB for one token and then leaves the configuration alone or is removed - KB's tokens are rejected, K0's accepted. Signature extensions include 255/256/257/512..131072 characters; constant-fill signatures 0x00/0xff/0x80/0x7f. Non-trivial = the case reached signature evaluation (accepted, or rejected by the crypto layer); distinct by hash of (token, provider, key, alg, config).")
     assumptions = ["reference verifier in vkeys.h on raw OpenSSL EVP decides validity (PSS: any salt length; ECDSA: fixed-width r||s)",
                    "structural forgeries only; primitives are trusted"]
     cov, mn = P.generic_harness_check(ctx, "C01_forge", rule, assumptions, min_nontrivial={"quick": 5000, "thorough": 50000})
@@ -239,7 +239,7 @@ def c07(ctx):
             "keys non-array, top-level array or scalar. Oracle: no sanitizer report or leak; not JSON (most lenient jansson flags) => set error + message + no new item; "
             "JSON (library flags) => no set error, item count = |keys| or 1, kid/oct bytes of item i come from element i, every item has error+message or known kty + "
             "key material (oct bytes equal decode of k; PEM parses; bits>0) and survives being used by a checker/builder. "
-            "Entries also load_fromfp/load_fromfile onto an existing set and jwks_create_from*; the existing set carries a stale error every second time; every reader of every item is called; application allocator and error-queue bits. Non-trivial = document that parses and contains an element with a known kty (reached a per-type parser); distinct by hash of (document, entry, provider).")
+            "Entries also load_fromfp/load_fromfile onto an existing set and jwks_create_from*; the existing set carries a stale error every second time and was emptied first (free_all / item by item) every second time; every reader of every item is called; application allocator and error-queue bits. Non-trivial = document that parses and contains an element with a known kty (reached a per-type parser); distinct by hash of (document, entry, provider).")
     assumptions = ["jansson decides what is JSON (most lenient flags for 'not JSON', library flags for 'JSON')",
                    "documents whose keys member is not an array are checked for memory safety and item well-formedness only (statement is silent)",
                    "libFuzzer campaigns are only approximately pinned by -seed; saved artifacts are the reproducible unit"]
@@ -280,7 +280,7 @@ def c15(ctx):
             "NULL string, malformed/scalar/duplicate-key JSON, whole-object merge with and without replace, typed gets, delete one/all) on six targets (builder headers, builder "
             "claims, the jwt_t of a generate callback and of a verify callback, headers and claims each); plus rapidcheck sequences of length 1-40 over the full op product "
             "(7 names x value tables at type boundaries). Oracle: std::map model of the statement: return code, value.error, returned value, and whole-object snapshot "
-            "json_equal to the model after every operation. JSON pool with members of every JSON type, 17-digit reals, DBL_MAX, 2^53+1; a name that differs from another only beyond 256 characters; dirty jwt_value_t. Non-trivial = sequence with a collision, a merge over existing members, or delete-all followed by a set; "
+            "json_equal to the model after every operation. JSON pool with members of every JSON type, 17-digit reals, DBL_MAX, 2^53+1; a name that differs from another only beyond 256 characters; dirty jwt_value_t; builder sequences contain generate() operations (maps unchanged). Non-trivial = sequence with a collision, a merge over existing members, or delete-all followed by a set; "
             "distinct by hash of (target, operation list).")
     assumptions = ["names and strings are valid UTF-8 without embedded NUL", "GET JSON of a scalar member may return TYPE or INVALID",
                    "only object payloads are used for the verify-callback target"]
@@ -343,7 +343,7 @@ def c13(ctx):
             "none with signature, NULL, empty) or one long-lived builder (the C10 operation alphabet incl. failing callbacks, public/weak/mismatched keys). After every "
             "verify/generate a fresh object is built, every configuration call made so far is replayed on it, and the same call is made at the same clock: return value and "
             "error flag must agree; tokens byte-equal for deterministic algorithms, header.payload equal otherwise. Message text is compared and histogrammed, not asserted. "
-            "Checker callbacks also leave the config in refused states (alg without key, alg != key alg, key without alg). Every case starts with a non-empty OpenSSL error queue and errno set. Non-trivial = sequence containing a call whose predecessor on the same object ended in the other verdict class without error_clear in between; distinct by hash of the operation list.")
+            "Checker callbacks also leave the config in refused states (alg without key, alg != key alg, key without alg) and may hand out another key of the same kind and algorithm the next time. Every case starts with a non-empty OpenSSL error queue and errno set. Non-trivial = sequence containing a call whose predecessor on the same object ended in the other verdict class without error_clear in between; distinct by hash of the operation list.")
     assumptions = ["the harness callback's own counter is copied to the fresh object (it is not library state)", "provider is not switched inside a sequence"]
     cov, mn = P.generic_harness_check(ctx, "C13_history", rule, assumptions, min_nontrivial={"quick": 2000, "thorough": 20000})
     return P.finish(ctx, "exploration", cov, assumptions, mn)
@@ -383,7 +383,7 @@ def c14(ctx):
             "states x provider; every single-member defect (absent / null / number / bool / array / object / empty / non-base64 / too short) of every member of RSA, EC, OKP, oct "
             "JWKs (public and private), bare and inside a set; non-JSON documents; then rapidcheck histories over the C13 checker alphabet and the C10 builder alphabet. "
             "Oracle: verify != 0 <=> error flag, failure has a message, success leaves flag clear and message empty; generate NULL <=> flag set with message; bad keyring items "
-            "and errored sets carry a message; setters return value.error. Part E: out-of-domain set/get/del inputs compare the returned code with value.error. 18 checker configurations incl. callbacks that return 0 with a refused config. Non-trivial = failing call; distinct by (cause class, configuration, object state) / hash of history.")
+            "and errored sets carry a message; setters return value.error. Part E: out-of-domain set/get/del inputs compare the returned code with value.error. 23 checker configurations incl. callbacks that return 0 with a refused config and keys that are items flagged with a load error. Non-trivial = failing call; distinct by (cause class, configuration, object state) / hash of history.")
     assumptions = ["strings are valid UTF-8; errored jwk items are not passed to setkey"]
     cov, mn = P.generic_harness_check(ctx, "C14_errors", rule, assumptions, min_nontrivial={"quick": 5000, "thorough": 50000})
     cov["cause_classes"] = sorted(k[6:] for k in cov["classes"] if k.startswith("cause:"))
@@ -445,7 +445,7 @@ def c09(ctx):
             "1024/2047/2048) x RS*/PS*; EC curves P-256, P-384, P-521, secp256k1, secp224r1, brainpoolP256r1, brainpoolP384r1 x ES256/ES256K/ES384/ES512; Ed25519, Ed448 x EdDSA; "
             "cross-family probes; each for jwt_builder_generate and for jwt_checker_verify of a token the reference signer signed validly with that very key; both providers. "
             "Oracle: below the floor => NULL / non-zero with error flag and message; at or above => generate succeeds, the token verifies and the reference verifier accepts "
-            "(GnuTLS: asserted for the curves it supports). Every cell also with the key naming the algorithm itself (pinned by key+setkey / key alone) and with an item flagged after loading (alg: 256); oct keys of the sizes asymmetric tests look for. The importer refusing an adequate key (with stale entries in OpenSSL's error queue) is a violation, not a skipped cell. Non-trivial = cell within one step of a threshold (31/32/33, 47/48/49, 63/64/65 bytes; 2040-2056 bits; every EC/OKP cell); "
+            "(GnuTLS: asserted for the curves it supports). Every cell also with the key naming the algorithm itself (pinned by key+setkey / key alone) and with an item flagged after loading (alg: 256); oct keys of the sizes asymmetric tests look for. The importer refusing an adequate key (with stale entries in OpenSSL's error queue) is a violation, not a skipped cell. Warm cells: the object has just succeeded with the key under another algorithm of the family (cell's algorithm by setkey or by callback). Non-trivial = cell within one step of a threshold (31/32/33, 47/48/49, 63/64/65 bytes; 2040-2056 bits; every EC/OKP cell); "
             "cells are distinct by construction.")
     assumptions = ["the statement constrains EC size only: brainpoolP256r1 may sign ES256 under OpenSSL", "a key the importer refuses counts as refused"]
     cov, mn = P.generic_harness_check(ctx, "C09_floor", rule, assumptions, extra_link="", exhaustive=True, min_nontrivial={"quick": 200, "thorough": 200})
@@ -466,7 +466,7 @@ def c12(ctx):
             "tokens are accepted. (2,3,5) exhaustive grid (key, alg) x loading provider x signing provider x verifying provider: key loaded under one provider signs under another, "
             "verifies under the third and is freed under the other; HS*/RS*/EdDSA tokens from identical builder state and clock are byte-identical across providers. "
             "(4) jwt_set_crypto_ops over exact names, case variants, prefixes, extensions, whitespace, empty, other providers' names and 60 seeded edits; jwt_set_crypto_ops_t over "
-            "ids -5..10 and random; JWT_CRYPTO values in a child process: switch iff exact name/id of a compiled provider, otherwise non-zero and provider unchanged / first provider. "
+            "ids -5..10 and random; JWT_CRYPTO values in a child process: switch iff exact name/id of a compiled provider, otherwise non-zero and provider unchanged / first provider. Key rotation: with a recycling allocator key A is loaded, used under both providers and freed, key B lands at its address - both providers reject A's and accept B's tokens. "
             "Non-trivial = verdict case that reaches the provider verify routine under both providers, cross-provider cell, near-miss name/id; distinct by hash / by construction.")
     assumptions = ["reference verifier decides RFC validity", "ES256K / secp256k1 are outside the common matrix",
                    "known dependency finding (nettle ignores the last Ed448 signature byte) has its own signature"]
@@ -529,10 +529,11 @@ def c18(ctx):
             "with seeded start skew and inter-call spin, under the fixed fake clock; one provider per process (even workers OpenSSL, odd workers GnuTLS), never switched. The same "
             "workload runs under ThreadSanitizer and under ASan/UBSan. Oracle: no ThreadSanitizer report whose stack contains a libjwt frame (reports without one are counted "
             "separately), and every thread's transcript (verdicts and error flags; tokens for HS*/RS*/EdDSA; header.payload + reference-verifier validity for ECDSA/PSS) equals the "
-            "transcript of the same script run sequentially beforehand. Round 0 of every worker is cold (first library calls of the process are concurrent); every second round all threads hammer one key; half of the calls look keys up by kid in the shared keyring; ES256K key also under GnuTLS (calls fail identically). Non-trivial = round in which calls of two threads overlapped on the same key (harness-owned atomic "
+            "transcript of the same script run sequentially beforehand. Round 0 of every worker is cold (first library calls of the process are concurrent); every second round all threads hammer one key; half of the calls look keys up by kid in the shared keyring; ES256K key also under GnuTLS (calls fail identically). Small-stack part: 3 threads with 64 KiB stacks verify and generate tokens with segments of 4k..64k(+-) characters (thorough: up to 1M) for every key; results equal the main thread's. Non-trivial = round in which calls of two threads overlapped on the same key (harness-owned atomic "
             "counters, not used in any verdict); distinct by (seed, worker, round, provider).")
     assumptions = ["TSan's happens-before detection reports a race whenever both accesses occur in a run; races only reachable through paths the scripts do not take are missed",
-                   "uninstrumented OpenSSL/GnuTLS/jansson internals are invisible to TSan", "schedules are sampled, not enumerated"]
+                   "uninstrumented OpenSSL/GnuTLS/jansson internals are invisible to TSan", "schedules are sampled, not enumerated",
+                   "small-stack part: a thread stack of 64 KiB is taken to be a legal environment; measured on this image, the unchanged library completes every call of that part with 24 KiB under both sanitizer builds (VERIF_C18_STACK overrides the size)"]
     t_exe = ck.build_harness("C18_threads", "tsan", extra_link="")
     a_exe = ck.build_harness("C18_threads", "asan", extra_link="")
     os.makedirs(P.OUT, exist_ok=True)
